@@ -383,6 +383,10 @@ _mode = "none"
 _codes = []
 
 
+EXCLUDE_MODULES = ("yowsup.layers.coder.encoder", "yowsup.layers.coder.decoder",
+                   "yowsup.layers.coder.tokendictionary")  # stateless byte loops: pre-empting them only costs time
+
+
 def _collect_codes(prefixes):
     seen = set()
     out = []
@@ -413,6 +417,8 @@ def _collect_codes(prefixes):
 
     for name, mod in list(sys.modules.items()):
         if mod is None or not any(name == p or name.startswith(p + ".") for p in prefixes):
+            continue
+        if name in EXCLUDE_MODULES:
             continue
         modname = getattr(mod, "__name__", None)
         for v in list(vars(mod).values()):
